@@ -39,12 +39,13 @@ type In struct {
 	PatLen int      `json:"pattern_len,omitempty"` // > 0: the stream is pattern(PatLen) and stream_hex is empty (long streams)
 	Ctor   string   `json:"ctor,omitempty"`        // unknown: constructor under test
 	// verify
-	Carrier string `json:"carrier,omitempty"`       // where the entry comes from
-	Fields  string `json:"fields,omitempty"`        // which Checksums-* fields the paragraph has: 256 | 512 | both
-	Kind    string `json:"recorded,omitempty"`      // what the recorded hash is
-	Other   string `json:"other_hex,omitempty"`     // the second file's content (the "different stream")
-	Entry   int    `json:"entry,omitempty"`         // which listed file is verified (0: Stream, 1: Other)
-	RecText string `json:"recorded_text,omitempty"` // recorded = literal-text: the hash text itself
+	Carrier string   `json:"carrier,omitempty"`       // where the entry comes from
+	Fields  string   `json:"fields,omitempty"`        // which Checksums-* fields the paragraph has: 256 | 512 | both
+	Kind    string   `json:"recorded,omitempty"`      // what the recorded hash is
+	Other   string   `json:"other_hex,omitempty"`     // the second file's content (the "different stream")
+	Entry   int      `json:"entry,omitempty"`         // which listed file is verified (0: Stream, 1: Other)
+	RecText string   `json:"recorded_text,omitempty"` // recorded = literal-text / near-hash: the hash text itself
+	Hist    []string `json:"history,omitempty"`       // op = history: the operations (see history.go)
 }
 
 var allAlgos = []string{"md5", "sha1", "sha256", "sha512"}
@@ -594,7 +595,7 @@ func recorded(kind, algo string, target, other []byte, literal string) string {
 		return strings.ToUpper(t)
 	case "non-hex":
 		return "g" + t[1:]
-	case "literal-text":
+	case "literal-text", "near-hash":
 		if len(strings.Fields(literal)) == 1 && strings.TrimSpace(literal) == literal {
 			return literal
 		}
@@ -1237,6 +1238,8 @@ func Run(r *mc.Run) {
 
 	unknownScenario(r)
 	verifyScenarios(r)
+	nearHashScenario(r)
+	historyScenario(r)
 }
 
 // nonPeriodic returns n bytes of a xorshift generator (no period within the lengths used here).
@@ -1490,6 +1493,59 @@ func verifyScenarios(r *mc.Run) {
 		})
 }
 
+// nearHashScenario: recorded hashes that differ from the true digest as little as possible - every single hex digit
+// replaced by each of the 15 other digits (this contains every single-byte XOR with 0x01, 0x20 and 0x80), in
+// lower- and upper-case spelling - must be rejected; the true digest in lower, upper and alternating case accepted.
+func nearHashScenario(r *mc.Run) {
+	streams := [][]byte{{}, {'a'}, {0x00, 0xff}, []byte("abc"), nonPeriodic(200), pattern(64)}
+	type cf struct{ carrier, fields string }
+	cfs := []cf{{"doc-sha256", "256"}, {"doc-sha512", "512"}, {"best", "256"}, {"best", "512"}, {"best", "both"}, {"dsc", "256"}}
+	const digits = "0123456789abcdef"
+	r.Scenario("verifier-near-hashes", map[string]interface{}{"streams": len(streams), "carrier/fields": fmt.Sprint(cfs),
+		"recorded": "every single-hex-digit substitution of the true digest (position x 15 other digits; contains the single-byte XORs with 01, 20, 80), also spelled in upper case; true digest in lower / upper / alternating case"},
+		len(streams)*len(cfs), func(i int, st *mc.Stats) bool {
+			s, c := streams[i/len(cfs)], cfs[i%len(cfs)]
+			algo := ownAlgo(c.carrier, c.fields)
+			t := hex.EncodeToString(refDigest(algo, s))
+			alt := []byte(t)
+			for k := range alt {
+				if k%2 == 0 {
+					alt[k] = strings.ToUpper(string(alt[k]))[0]
+				}
+			}
+			texts := []string{t, strings.ToUpper(t), string(alt)}
+			for p := 0; p < len(t); p++ {
+				for d := 0; d < 16; d++ {
+					if digits[d] != t[p] {
+						n := t[:p] + string(digits[d]) + t[p+1:]
+						texts = append(texts, n)
+						if d >= 10 || p%8 == 0 {
+							texts = append(texts, strings.ToUpper(n))
+						}
+					}
+				}
+			}
+			for ti, text := range texts {
+				in := In{Op: "verify", Stream: hex.EncodeToString(s), Other: hex.EncodeToString(append(append([]byte(nil), s...), 0)), Chunks: []int{len(s)}, SumAt: -1,
+					Carrier: c.carrier, Fields: c.fields, Kind: "near-hash", RecText: text}
+				v, class := checkVerify("verifier-near-hashes", in)
+				if class == "" {
+					continue
+				}
+				st.Evals++
+				st.Traces++
+				st.Nontrivial++
+				st.Class(class)
+				st.Violate(v)
+				if i == 7 && (ti == 1 || ti == 40) && st.WantSample() {
+					st.Sample(in)
+				}
+			}
+			st.States++
+			return true
+		})
+}
+
 func Replay(scenario string, raw json.RawMessage) []*mc.Violation {
 	var in In
 	if err := mc.UnmarshalInput(raw, &in); err != nil {
@@ -1497,6 +1553,8 @@ func Replay(scenario string, raw json.RawMessage) []*mc.Violation {
 	}
 	var v *mc.Violation
 	switch in.Op {
+	case "history":
+		v, _ = checkHistory(scenario, in)
 	case "verify":
 		v, _ = checkVerify(scenario, in)
 	case "unknown":
